@@ -134,8 +134,12 @@ func TestC18(t *testing.T) {
 		// a small build; the file under test is one of its files
 		nfiles := rapid.IntRange(1, 3).Draw(rt, "nfiles")
 		tree := Tree{}
+		bigCase := rapid.IntRange(0, 11).Draw(rt, "bigsigned") == 0
 		for i := 0; i < nfiles; i++ {
 			sz := genSize(rt, GenOpts{MaxMid: 300 * KiB}, "signed")
+			if bigCase && i == 0 {
+				sz = 4*MiB + rapid.IntRange(1, 5).Draw(rt, "bigblocks")*BlockSize + rapid.IntRange(0, 3).Draw(rt, "bigtail")*1000
+			}
 			tree[fmt.Sprintf("f%d", i)] = &Entry{Kind: KFile, Data: genContent(rt, GenOpts{}, sz, 77, "signed")}
 		}
 		dir, cleanup := RunDir()
@@ -144,6 +148,11 @@ func TestC18(t *testing.T) {
 		fi := int64(rapid.IntRange(0, nfiles-1).Draw(rt, "fileindex"))
 		signed := tree[si.Container.Files[fi].Path].Data
 		written, mdesc := mutateWritten(rt, signed)
+		if bigCase && rapid.Bool().Draw(rt, "bigreseed") {
+			fi = 0
+			signed = tree[si.Container.Files[fi].Path].Data
+			written, mdesc = Bytes(12345, len(signed)), "every block replaced (same length)"
+		}
 		slice := drawSlicer(rt, "wslice")
 		if slice != nil && rapid.Bool().Draw(rt, "bigslices") {
 			slice.Edge = BlockSize
@@ -163,6 +172,59 @@ func TestC18(t *testing.T) {
 		inner := &recWritePool{Got: map[int64][]byte{}, Closed: map[int64]int{}}
 		setup := fmt.Sprintf("signed %d B (%d blocks), written %d B: %s; slicing %s; mode %d; first differing block %d", len(signed), len(sb), len(written), mdesc, slicerDesc(slice), mode, firstBad)
 
+		keepWriting := rapid.Bool().Draw(rt, "keepwriting")
+		if mode == 0 && nfiles >= 2 && rapid.IntRange(0, 3).Draw(rt, "twowriters") == 0 {
+			// two writers of the same pool open at once (lake.WritablePool allows it), fed alternately
+			// with the signed content of their files: both must pass intact
+			vp := &pwr.ValidatingPool{Pool: inner, Container: si.Container, Signature: si}
+			a, b := int64(0), int64(1)
+			da, db := tree[si.Container.Files[a].Path].Data, tree[si.Container.Files[b].Path].Data
+			wa, ea := vp.GetWriter(a)
+			wb, eb := vp.GetWriter(b)
+			if ea != nil || eb != nil {
+				Violation(rt, "C18/getwriter", "GetWriter: %v %v", ea, eb)
+				return
+			}
+			oa, ob := 0, 0
+			step := func(w io.Writer, d []byte, o *int) error {
+				if *o >= len(d) {
+					return nil
+				}
+				n := len(d) - *o
+				if n > 2*BlockSize {
+					n = 2 * BlockSize
+				}
+				if slice != nil {
+					n = slice.Next(n)
+				}
+				_, err := w.Write(d[*o : *o+n])
+				*o += n
+				return err
+			}
+			for oa < len(da) || ob < len(db) {
+				if err := step(wa, da, &oa); err != nil {
+					Violation(rt, "C18/concurrent-writers", "two writers open at once: write of signed bytes of file %d ending at %d rejected: %v", a, oa, err)
+					return
+				}
+				if err := step(wb, db, &ob); err != nil {
+					Violation(rt, "C18/concurrent-writers", "two writers open at once: write of signed bytes of file %d ending at %d rejected: %v", b, ob, err)
+					return
+				}
+			}
+			if e1, e2 := wa.Close(), wb.Close(); e1 != nil || e2 != nil {
+				Violation(rt, "C18/concurrent-writers", "two writers open at once: close errors %v / %v on signed content", e1, e2)
+				return
+			}
+			if !bytes.Equal(inner.Got[a], da) || !bytes.Equal(inner.Got[b], db) {
+				Violation(rt, "C18/concurrent-writers", "two writers open at once: inner pool content differs from the signed content (file %d: %d/%d bytes, file %d: %d/%d bytes)", a, len(inner.Got[a]), len(da), b, len(inner.Got[b]), len(db))
+				return
+			}
+			Ev.Probe("two_writers_open_at_once")
+			Ev.Eval(fnv64(da, db, []byte(slicerDesc(slice)), []byte("two")), true, func() interface{} {
+				return map[string]interface{}{"setup": fmt.Sprintf("two writers interleaved, files of %d and %d bytes, slicing %s", len(da), len(db), slicerDesc(slice))}
+			})
+			return
+		}
 		if mode == 0 {
 			vp := &pwr.ValidatingPool{Pool: inner, Container: si.Container, Signature: si}
 			w, err := vp.GetWriter(fi)
@@ -185,6 +247,21 @@ func TestC18(t *testing.T) {
 				end := off + n
 				if werr != nil {
 					failedAt, failErr = end, werr
+					if keepWriting {
+						// a caller that does not stop at the first error: nothing more may get through
+						for o2 := end; o2 < len(written); {
+							n2 := len(written) - o2
+							if n2 > 3*BlockSize {
+								n2 = 3 * BlockSize
+							}
+							if slice != nil {
+								n2 = slice.Next(n2)
+							}
+							w.Write(written[o2 : o2+n2])
+							o2 += n2
+						}
+						Ev.Probe("writes_continued_after_failed_write")
+					}
 					break
 				}
 				// this call completed blocks up to end/BlockSize; none of them may be bad
